@@ -117,3 +117,18 @@ CASES += [
     {"name": "receive buffer allocated per item with numpy.empty", "kind": "twin", "edits": [
         (_PAR20, _RB_OLD, "                        data = numpy.empty(data_shape, dtype=data_type)\n", 1)]},
 ]
+
+CASES += [
+    {"name": "blocks of a list remembered by its length and taken from config.ranges (seeded change of round 9)",
+     "kind": "mutant", "rule": "C20-I", "edits": [
+        (_PAR20, "    ln = len(dlist)\n    start = 0\n    stop = ln\n",
+                 "    ln = len(dlist)\n    if config.__dict__.get('_list_length') == (ln, config.size):\n        return config.ranges[config.rank]\n"
+                 "    config._list_length = (ln, config.size)\n    start = 0\n    stop = ln\n", 1)]},
+    {"name": "the calculator of array blocks returns the blocks of the last loop when the extent is the same",
+     "kind": "mutant", "rule": "C20-I", "edits": [
+        (_PAR20, "    ln = array.shape[0]\n    start = 0\n    stop = ln\n",
+                 "    ln = array.shape[0]\n    if config.ranges is not None and config.ranges[-1][1] == ln:\n        return config.ranges[config.rank]\n    start = 0\n    stop = ln\n", 1)]},
+    {"name": "the list calculator looks at what identifies the process (size) before it divides", "kind": "twin", "edits": [
+        (_PAR20, "    ln = len(dlist)\n    start = 0\n    stop = ln\n",
+                 "    ln = len(dlist)\n    if config.size < 1:\n        raise Exception('no process')\n    start = 0\n    stop = ln\n", 1)]},
+]
